@@ -1067,3 +1067,8 @@ impl WmoWriter {
         Ok(())
     }
 }
+
+// verification hook (guard: cfg(kani), set only by `cargo kani`): harness module supplied by /verif
+#[cfg(kani)]
+#[path = "verif_kani_writer.rs"]
+mod verif_kani;
